@@ -104,6 +104,36 @@ def run_interleaved(gen, ops_a, ops_b):
     return results[0], results[1]
 
 
+def handshake_partial(ctx, thorough):
+    """during the handshake an unsolicited AC status frame that covers only SOME of the units arrives just before the console's answer to
+    the AC status request (a console publishes such frames whenever a unit changes): after init() every unit shows what the console's
+    latest frame about it said.  (The client cannot tell the unsolicited frame from the answer; it takes the first one as the answer and
+    discards the real one - listed in known_findings.txt under this key.)"""
+    import re
+    rng = ctx.rng
+    for gen in (4, 5):
+        for k in range(6 if thorough else 2):
+            fans = 0x7F if gen == 4 else 0xFF
+            inst = dict(acs=[dict(id=0, modes=0x1F, fans=fans, lo=16, hi=30, zones=[0], mode=4, power=1, setpoint=24),
+                             dict(id=1, modes=0x1F, fans=fans, lo=16, hi=30, zones=[1], mode=1, power=1, setpoint=21)],
+                        zones={0: dict(sensor=True, ctrl=1), 1: dict(sensor=True, ctrl=1)})
+            hs = C.handshake(gen, inst)
+            idx = [i for i, o in enumerate(hs) if apiref.kind_of(gen, o) in ("2D", "C023")][0]
+            partial = (C.at4_ac_status if gen == 4 else C.at5_ac_status)([dict(id=0, power=1, mode=4, fan=0, setpoint=(24 if gen == 4 else 140), temp=235)])
+            ops = hs[:idx] + [partial] * (1 + k % 2) + hs[idx:] + ["view"]
+            out = run_real(gen, ops)
+            ctx.case(("handshake-partial", gen, k))
+            view = next((x for x in out[-1] if x.startswith("VIEW")), "")
+            shown = dict((int(a), (p, m)) for a, p, m in re.findall(r"AC\(ac_id=(\d+).*?power_state=(\w+),selected_mode=(\w+)", view))
+            ok = shown.get(1) == ("ON", "HEAT") and shown.get(0) == ("ON", "COOL")
+            ctx.count("handshake-partial:%s" % ("ok" if ok else "differs"))
+            if not ok:
+                ctx.violation("C10:handshake-partial-status-then-answer", "AirTouch %d: an unsolicited AC status frame for unit 0 alone arrives at the AC status step of the handshake, "
+                              "then the console's answer (unit 0 ON / COOL, unit 1 ON / HEAT): after init() the units show %s" % (gen, shown), kind="history",
+                              level="handshake-partial", gen=gen, ops=ops, implementation_output=str(shown), spec_verdict="{0: ('ON', 'COOL'), 1: ('ON', 'HEAT')}")
+                break
+
+
 def two_objects(ctx, thorough):
     """what one client object shows does not depend on another client object of the same generation living in the same process:
     each script's outputs, run alternately with another installation's script, equal its outputs when run alone"""
@@ -504,6 +534,7 @@ def run(ctx, deep=False):
         gen, label, ops, base = jobs[0]
         ctx.sample({"script": label, "gen": gen, "ops": ops[base:base + 6]})
     two_objects(ctx, thorough)
+    handshake_partial(ctx, thorough)
     tie(ctx, "C10", 400 if thorough else 40)
 
 
@@ -521,6 +552,11 @@ def search(ctx):
 
 
 def replay(ctx, data):
+    if data.get("level") == "handshake-partial":
+        out = run_real(data["gen"], data["ops"])
+        print(next((x for x in out[-1] if x.startswith("VIEW")), "")[:600])
+        print("expected units:", data.get("spec_verdict"))
+        return 1
     if data.get("level") == "two-objects":
         gen, oa, ob = data["gen"], data["ops_a"], data["ops_b"]
         solo = (run_real(gen, oa), run_real(gen, ob))
